@@ -2,7 +2,7 @@
 Each rewrite edits the TEXT of a valid generated document at a randomly chosen applicable site;
 what the rewritten document actually violates is decided by the Lean specification
 (Spec/Validation.lean), never by the rewrite's intent."""
-import re, random
+import re, random, json
 from gen import tstr, base, print_value, is_nn
 
 def _sites(q, pattern):
@@ -139,6 +139,9 @@ class Catalogue:
                     j += 1
                 if b in repl:
                     res.append(q[:end] + self.r.choice(repl[b]) + q[j:])
+                elif b == "Any" and "l" not in json.dumps(ty):
+                    # the custom scalar refuses a literal by answering "undefined" ("BAD") or by RAISING ("BADRAISE")
+                    res.append(q[:end] + self.r.choice(['"BAD"', '"BADRAISE"', '"BADRAISE"', "[1]", "{a: 1}", "1.5"]) + q[j:])
                 elif self.sg.tdef(b)["kind"] == "input":
                     res.append(q[:end] + self.r.choice(['{zzz_unknown: 1}', '"notobject"', '[{zzz: 1}]', '{x: {a: 1}}', "{x: 1, x: 2}"]) + q[j:])
         ms = _sites(q, r"@(skip|include)\(if: (true|false)\)")
@@ -318,6 +321,35 @@ class Catalogue:
                 for m in _sites(q, r"\b" + fn + r"\b(?!\()")[:1]:
                     q2 = add_var(_insert(q, m.end(), f"(v: {use})"), decl)
                     if q2: res.append(q2)
+        # a variable of a LOOK-ALIKE type (Int for Float, Int / String for ID, ID for String ...): every value of it would be
+        # accepted by the position's own coercion, the rule compares type NAMES
+        alike = {"Float": ["Int"], "ID": ["Int", "String"], "String": ["ID"], "Int": ["Float", "ID"], "Boolean": ["Int"]}
+        for fn in self.r.sample(list(self.sg.echo), min(3, len(self.sg.echo))):
+            ty = self.sg.sigs[fn]["args"][0]["type"]
+            if base(ty) in alike:
+                decl_ty = tstr(ty).replace(base(ty), self.r.choice(alike[base(ty)]))
+                for m in _sites(q, r"\b" + fn + r"\b(?!\()")[:1]:
+                    q2 = add_var(_insert(q, m.end(), "(v: $w)"), f"$w: {decl_ty}")
+                    if q2: res.append(q2)
+        # the same at the arguments of ANY field of the document - leaf or with a sub-selection, root or nested, in fragments
+        sites = []
+        for m in re.finditer(r"\b(\w+)\((\w+): ", q):
+            fn, an = m.group(1), m.group(2)
+            sig = self.sg.sigs.get(fn)
+            ad = next((a for a in (sig or {}).get("args", []) if a["name"] == an), None)
+            if ad is None or base(ad["type"]) not in alike or q[m.end()] == "$": continue
+            depth = 0; j = m.end()
+            while j < len(q) and not (q[j] in ",)" and depth == 0):
+                if q[j] in "([{": depth += 1
+                if q[j] in ")]}": depth -= 1
+                j += 1
+            sites.append((m.end(), j, ad, bool(re.match(r"\)[^{}]*?\{", q[q.index(")", j) if ")" in q[j:] else j:][:40]))))
+        self.r.shuffle(sites)
+        sites.sort(key=lambda t: not t[3])         # fields WITH a sub-selection first
+        for (a0, a1, ad, _) in sites[:3]:
+            decl_ty = tstr(ad["type"]).replace(base(ad["type"]), self.r.choice(alike[base(ad["type"])]))
+            q2 = add_var(q[:a0] + "$w" + q[a1:], f"$w: {decl_ty}")
+            if q2: res.append(q2)
         ms = _sites(q, r"@(skip|include)\(if: (true|false)\)")
         for m in ms[:1]:
             q2 = add_var(q[:m.start(2)] + "$w" + q[m.end(2):], "$w: Boolean")      # nullable variable, non-null position, no defaults
